@@ -113,7 +113,7 @@ def run(ctx, prop, only=None):
                              "silent_on_benign": sum(1 for r in results if r["status"] == "silent"),
                              "stale": sum(1 for r in results if r["status"] == "stale")}
     for r in results:
-        print("  selftest %-40s %s %s%s" % (r["mutant"], r["status"], r.get("why") or (r.get("fired") if r["status"] in ("SURVIVED", "FALSE-ALARM") else ""),
+        print("  selftest %-40s %s %s%s" % (r["mutant"], r["status"], (r.get("why") or "")[-300:].replace("\n", " | ") or (r.get("fired") if r["status"] in ("SURVIVED", "FALSE-ALARM") else ""),
                                              ("  [analysis broken on the edited tree: %s]" % r["broken"][:300]) if (r.get("broken") and r["status"] in ("SURVIVED", "FALSE-ALARM")) else ""))
     bad = [r for r in results if r["status"] in ("SURVIVED", "FALSE-ALARM")]
     if bad:
